@@ -69,6 +69,9 @@ func (t *ClientTransport) Handshake() (hr *parser.HandshakeResponse, err error) 
 	if err != nil {
 		return
 	}
+	// The library's default read limit is 32768 bytes; the limit that applies to this
+	// connection is the server's (maxPayload), which the server enforces on what it accepts.
+	t.conn.SetReadLimit(-1)
 
 	// If sid is set this means that we have already connected and
 	// we're using this transport for upgrade purposes.
